@@ -127,6 +127,51 @@ theorem segs_contig (f : List Tree) (p : Nat × Nat) (r : List (Nat × Nat)) (h 
     show seg f p ++ segs f (q :: t) = _
     rw [hq, seg, take_drop_split f p.1 p.2 e' h.1 (by rw [h.2.1]; exact hle), h.2.1]
 
+/-! ### virtual field index mapping -/
+
+/-- the captured elements of a quantifier list before the index mapping, in order, as (kind, idx) -/
+def flatR : List RItem → List (Nat × Nat)
+  | [] => []
+  | .one k i :: r => (k, i) :: flatR r
+  | .many l :: r => l ++ flatR r
+
+theorem virtPairs_append (order a b : List (Nat × Nat)) :
+    virtPairs order (a ++ b) = virtPairs order a ++ virtPairs order b := by
+  induction a with
+  | nil => rfl
+  | cons x r ih => simp [virtPairs, ih]
+
+/-- mapping each element and then flattening = flattening and then mapping -/
+theorem flatQ_virtQ (order : List (Nat × Nat)) (q : List RItem) :
+    flatQ (virtQ order q) = virtPairs order (flatR q) := by
+  induction q with
+  | nil => rfl
+  | cons x r ih =>
+    cases x with
+    | one k i => simp [virtQ, flatQ, flatR, virtPairs, ih]
+    | many l => simp [virtQ, flatQ, flatR, virtPairs_append, ih]
+
+/-- a unit segment is exactly the element at that virtual index -/
+theorem seg_unit (field : List Tree) (v : Nat) : seg field (v, v + 1) = (field[v]?).toList := by
+  simp only [seg, Nat.add_sub_cancel_left]
+  induction field generalizing v with
+  | nil => simp
+  | cons x r ih =>
+    cases v with
+    | zero => simp
+    | succ v => simpa using ih v
+
+/-- the elements of the virtual field at the mapped positions of the captured (kind, idx) pairs, in capture order -/
+def elemsAt (field : List Tree) (order : List (Nat × Nat)) : List (Nat × Nat) → List Tree
+  | [] => []
+  | p :: r => (field[virtIdx order p]?).toList ++ elemsAt field order r
+
+theorem segs_virtPairs (field : List Tree) (order ps : List (Nat × Nat)) :
+    segs field (virtPairs order ps) = elemsAt field order ps := by
+  induction ps with
+  | nil => rfl
+  | cons p r ih => simp only [virtPairs, segs, elemsAt, seg_unit, ih]
+
 /-! ### basic facts about clean / marks -/
 
 mutual
